@@ -284,9 +284,23 @@ type c16Dist struct {
 	bs, w          int
 	lay, perm      []int
 	toks           []string
+	app            bool                // --append
+	old            [][2]string         // files present before the run: name, ids joined by '.'
 }
 
 var c16PatRe = regexp.MustCompile(`^[A-Za-z0-9_.]*$`)
+
+// class values that are plain file name parts (a dot is allowed after the first character: x.gz)
+var c16KeyRe = regexp.MustCompile(`^[A-Za-z0-9_][A-Za-z0-9_.:]*$`)
+
+// directory values: plain names, ':' allowed after the first character
+var c16DirRe = regexp.MustCompile(`^[A-Za-z0-9_][A-Za-z0-9_:]*$`)
+
+// identifiers of the records present before the run (the records of a case never start with "old")
+var c16OldIdRe = regexp.MustCompile(`^old[0-9]+$`)
+
+// a file present before the run: plain name or dir/name
+var c16OldNameRe = regexp.MustCompile(`^([A-Za-z0-9_]+/)?[A-Za-z0-9_][A-Za-z0-9_.]*$`)
 
 func c16ParseDist(ws []string) (*c16Dist, bool) {
 	d := &c16Dist{na: "NA", bs: 3, w: 2, toks: ws}
@@ -303,6 +317,8 @@ func c16ParseDist(ws []string) (*c16Dist, bool) {
 				d.z = true
 			case "long":
 				d.long = true
+			case "A":
+				d.app = true
 			default:
 				return nil, false
 			}
@@ -337,6 +353,45 @@ func c16ParseDist(ws []string) (*c16Dist, bool) {
 			d.lay, ok = c16IntList(x)
 		case "perm":
 			d.perm, ok = c16IntList(x)
+		case "old":
+			for _, f := range strings.Split(x, ",") {
+				q := strings.Split(f, ":")
+				if len(q) != 2 {
+					return nil, false
+				}
+				name, ok1 := c16Ascii(q[0])
+				if !ok1 || !c16OldNameRe.MatchString(name) {
+					return nil, false
+				}
+				for _, o := range d.old {
+					if o[0] == name {
+						return nil, false
+					}
+				}
+				var ids []string
+				if q[1] != "-" {
+					for _, h := range strings.Split(q[1], ".") {
+						id, ok2 := c16Ascii(h)
+						if !ok2 || !c16OldIdRe.MatchString(id) {
+							return nil, false
+						}
+						ids = append(ids, id)
+					}
+				}
+				d.old = append(d.old, [2]string{name, strings.Join(ids, ".")})
+			}
+			seenOld := map[string]bool{}
+			for _, o := range d.old {
+				if o[1] == "" {
+					continue
+				}
+				for _, id := range strings.Split(o[1], ".") {
+					if seenOld[id] {
+						return nil, false
+					}
+					seenOld[id] = true
+				}
+			}
 		case "pat":
 			p := strings.Split(x, ":")
 			if len(p) != 2 {
@@ -391,6 +446,13 @@ func (d *c16Dist) argv() []string {
 			av = append(av, "-Z")
 		}
 	}
+	if d.app {
+		if d.long {
+			av = append(av, "--append")
+		} else {
+			av = append(av, "-A")
+		}
+	}
 	opt("", "batch-size", strconv.Itoa(d.bs))
 	if d.w == 1 {
 		av = append(av, "--force-one-cpu")
@@ -420,11 +482,12 @@ func (d *c16Dist) refFile(i int, r c16Rec) (string, bool) {
 	default:
 		key = strconv.Itoa(int(crc32.ChecksumIEEE(r.seq) % uint32(d.h)))
 	}
-	if !c16IdRe.MatchString(key) || (dir != "" && !c16IdRe.MatchString(dir)) {
+	if !c16KeyRe.MatchString(key) || (dir != "" && !c16DirRe.MatchString(dir)) {
 		return "", false
 	}
+	// compressed output: every file name ends with .gz — the pattern says so itself, or .gz is appended
 	name := d.pre + key + d.suf
-	if d.z && !strings.HasSuffix(name, ".gz") {
+	if d.z && !strings.HasSuffix(d.pre+"%s"+d.suf, ".gz") {
 		name += ".gz"
 	}
 	if dir != "" {
@@ -468,7 +531,7 @@ func (c16) execDistIO(ws []string, recs []c16Pair) (string, []Fail) {
 	expFiles := map[string][]string{}
 	seenId := map[string]bool{}
 	for i, p := range recs {
-		if p.mate != nil || !c16IdRe.MatchString(p.r.id) || !c16SeqOK(p.r.seq) || seenId[p.r.id] {
+		if p.mate != nil || !c16IdRe.MatchString(p.r.id) || !c16SeqOK(p.r.seq) || seenId[p.r.id] || strings.HasPrefix(p.r.id, "old") {
 			return "bad-op", nil
 		}
 		seenId[p.r.id] = true
@@ -478,8 +541,42 @@ func (c16) execDistIO(ws []string, recs []c16Pair) (string, []Fail) {
 		}
 		expFiles[fn] = append(expFiles[fn], p.r.id)
 	}
+	// --append: the old content of a file of the run is kept in front; without it, it is lost; the files the
+	// run does not write are untouched
+	for _, o := range d.old {
+		var ids []string
+		if o[1] != "" {
+			ids = strings.Split(o[1], ".")
+		}
+		if routed, ok := expFiles[o[0]]; ok {
+			if d.app {
+				expFiles[o[0]] = append(append([]string{}, ids...), routed...)
+			}
+		} else {
+			expFiles[o[0]] = ids
+		}
+	}
 	dir := c16NewDir("di")
 	defer os.RemoveAll(dir)
+	for _, o := range d.old {
+		fn := filepath.Join(dir, o[0])
+		os.MkdirAll(filepath.Dir(fn), 0o755)
+		var b strings.Builder
+		if o[1] != "" {
+			for _, id := range strings.Split(o[1], ".") {
+				b.WriteString(">" + id + "\nacgt\n")
+			}
+		}
+		data := []byte(b.String())
+		if d.z { // without -Z the writers write plain text whatever the name of the file
+			var zb strings.Builder
+			zw := gzip.NewWriter(&zb)
+			zw.Write(data)
+			zw.Close()
+			data = []byte(zb.String())
+		}
+		os.WriteFile(fn, data, 0o644)
+	}
 	cwd, err := os.Getwd()
 	if err != nil || os.Chdir(dir) != nil {
 		return "bad-op", nil
@@ -734,6 +831,93 @@ func c16BlockCase(rng *rand.Rand, op string, join func(string, []string, []c16Pa
 	return join(op, toks, out)
 }
 
+// one grepio case for two given predicate builders (and -v / a paired mode) on a multi-batch input: whole
+// batches of rejected records when the draw has both kept and rejected records, a random layout otherwise;
+// "" when an expression cannot be evaluated on a record of the draw
+func c16PairCase(rng *rand.Rand, k1, k2 string, invert bool, mode string, join func(string, []string, []c16Pair) string) (string, bool) {
+	paired := mode != ""
+	recs := c16ManyRecs(rng, paired, 6+rng.Intn(8))
+	if k1 == "r" || k1 == "i" || k1 == "rank" || k2 == "r" || k2 == "i" || k2 == "rank" {
+		for j := range recs { // most records carry a taxid
+			if rng.Intn(4) != 0 {
+				recs[j].r.attrs["taxid"] = c16Val{kind: 'i', n: c16Taxids[rng.Intn(len(c16Taxids))]}
+			}
+			if paired && rng.Intn(4) != 0 {
+				recs[j].mate.attrs["taxid"] = c16Val{kind: 'i', n: c16Taxids[rng.Intn(len(c16Taxids))]}
+			}
+		}
+	}
+	var toks []string
+	if paired {
+		toks = append(toks, "paired", "pm="+hs(mode))
+	}
+	toks = append(toks, c16Opt(rng, k1, recs)...)
+	if k2 != k1 {
+		toks = append(toks, c16Opt(rng, k2, recs)...)
+	}
+	if invert && k1 != "v" && k2 != "v" {
+		toks = append(toks, "v")
+	}
+	// single-valued tokens may come from both builders (pe / indel / fwd of two ap draws)
+	seen := map[string]bool{}
+	var uniq []string
+	for _, t := range toks {
+		k := strings.SplitN(t, "=", 2)[0]
+		if (k == "pe" || k == "indel" || k == "fwd" || k == "v" || k == "l" || k == "L" || k == "c" || k == "C" || k == "idl") && seen[k] {
+			continue
+		}
+		seen[k] = true
+		uniq = append(uniq, t)
+	}
+	toks = uniq
+	sp, ok := c16ParseSpec(toks)
+	if !ok {
+		return "", false
+	}
+	tab := &c16Table{}
+	keep := make([]bool, len(recs))
+	nk := 0
+	for i, p := range recs {
+		acc, _ := c16Selects(sp, p, tab)
+		if acc != "0" && acc != "1" {
+			return "", false
+		}
+		for _, e := range sp.p {
+			if tab.evalBool(e, p.r) == "E" || (p.mate != nil && tab.evalBool(e, *p.mate) == "E") {
+				return "", false
+			}
+		}
+		keep[i] = acc == "1"
+		if keep[i] {
+			nk++
+		}
+	}
+	mixed := nk > 0 && nk < len(recs)
+	if !paired {
+		if out, lay, pat := c16Blocks(rng, recs, keep); out != nil {
+			toks = append(toks, fmt.Sprintf("bs=%d", 1+rng.Intn(4)), fmt.Sprintf("w=%d", 1+rng.Intn(8)), "lay="+c16ShowIntList(lay))
+			if pm := c16RandPerm(rng, len(lay)); pm != nil {
+				toks = append(toks, "perm="+c16ShowIntList(pm))
+			}
+			_ = pat
+			recs = out
+		} else {
+			toks = append(toks, c16RandLayout(rng, len(recs))...)
+		}
+	} else {
+		// PairTo re-batches both inputs by --batch-size
+		bs := 1 + rng.Intn(3)
+		toks = append(toks, fmt.Sprintf("bs=%d", bs), fmt.Sprintf("w=%d", 1+rng.Intn(8)))
+		if pm := c16RandPerm(rng, len(c16BatchSizes(bs, nil, len(recs)))); pm != nil {
+			toks = append(toks, "perm="+c16ShowIntList(pm))
+		}
+	}
+	if rng.Intn(2) == 0 {
+		toks = append(toks, "nosd")
+	}
+	return join("grepio", toks, recs), mixed
+}
+
 func c16GenPipe(rng *rand.Rand, tier string, emit func(string), join func(string, []string, []c16Pair) string) {
 	// corpus: whole batches rejected at the beginning / middle / end, with and without --save-discarded
 	for _, c := range []string{
@@ -754,6 +938,17 @@ func c16GenPipe(rng *rand.Rand, tier string, emit func(string), join func(string
 		"distio pat=62:- n=3 bs=2 w=2 lay=0.4.3 perm=2.1.0 | 61,6163,- ; 62,6163,- ; 63,6163,- ; 64,6163,- ; 65,61,- ; 66,63,- ; 67,67,-",
 		"distio pat=68:2e6661 H=4 z bs=2 w=2 | 61,6163,- ; 62,61636774,- ; 63,74,- ; 64,6163,- ; 65,61,-",
 		"distio pat=68:2e66612e677a H=1 z long bs=5 w=1 | 61,6163,- ; 62,61636774,-",
+		// -Z and a pattern that does not end with .gz: the classes x and x.gz had the same file (the decision to
+		// append .gz was taken on the formatted name)
+		"distio pat=61:- cl=73616d706c65 z bs=2 w=2 | 72315f30,61636774,73616d706c65=s78 ; 72325f31,61636774,73616d706c65=s782e677a ; 72335f32,6163,73616d706c65=s78 ; 72345f33,6767,73616d706c65=s782e677a",
+		"distio pat=61:2e66 cl=73616d706c65 z bs=1 w=2 | 72315f30,61636774,73616d706c65=s78 ; 72325f31,61636774,73616d706c65=s782e677a",
+		// class values holding a separator: (S1, lib:A) and (S1:lib, A) are two classes
+		"distio pat=6f5f:2e6661 cl=73616d706c65 dir=72756e bs=2 w=2 | 72315f30,61636774,73616d706c65=s5331;72756e=s6c69623a41 ; 72325f31,61636774,73616d706c65=s53313a6c6962;72756e=s41 ; 72335f32,6163,73616d706c65=s5331;72756e=s6c69623a41 ; 72345f33,6767,73616d706c65=s53313a6c6962;72756e=s41",
+		"distio pat=6f5f:2e6661 cl=73616d706c65 dir=72756e bs=2 w=2 perm=1.0 | 72325f31,61636774,73616d706c65=s53313a6c6962;72756e=s41 ; 72315f30,61636774,73616d706c65=s5331;72756e=s6c69623a41 ; 72335f32,6163,73616d706c65=s5331;72756e=s6c69623a41",
+		// --append: old content kept in front / lost without it; untouched files stay
+		"distio pat=6f75745f:2e6661737461 cl=73616d706c65 A old=6f75745f412e6661737461:6f6c6431.6f6c6432,6f746865722e6661737461:6f6c6433 bs=2 w=2 | 61,6163,73616d706c65=s41 ; 62,6163,- ; 63,6163,73616d706c65=s41",
+		"distio pat=6f75745f:2e6661737461 cl=73616d706c65 old=6f75745f412e6661737461:6f6c6431.6f6c6432,6f746865722e6661737461:6f6c6433 bs=2 w=2 | 61,6163,73616d706c65=s41 ; 62,6163,- ; 63,6163,73616d706c65=s41",
+		"distio pat=62:- n=2 z A old=62312e677a:6f6c6431 bs=2 w=2 | 61,6163,- ; 62,6163,- ; 63,6163,-",
 	} {
 		emit(c)
 	}
@@ -772,6 +967,41 @@ func c16GenPipe(rng *rand.Rand, tier string, emit func(string), join func(string
 				stat(op + ".blocks")
 				break
 			}
+		}
+	}
+	// every predicate builder with every other one (and with itself = alone), plain / -v / a paired mode,
+	// through CLIFilterSequence on multi-batch inputs
+	kinds := []string{"l", "L", "c", "C", "s", "D", "I", "A", "a", "p", "idl", "r", "i", "rank", "ap"}
+	nth := 0
+	for i, k1 := range kinds {
+		for _, k2 := range kinds[i:] {
+			variants := []int{nth % 3}
+			if tier == "thorough" {
+				variants = []int{0, 1, 2}
+			}
+			for _, v := range variants {
+				mode := ""
+				if v == 2 {
+					mode = c16Modes[(nth/3+i)%6]
+				}
+				// prefer a draw with kept and rejected records
+				best, mixed := "", false
+				for try := 0; try < 12 && !mixed; try++ {
+					if c, m := c16PairCase(rng, k1, k2, v == 1 || (v == 2 && nth%2 == 0), mode, join); c != "" && (best == "" || m) {
+						best, mixed = c, m
+					}
+				}
+				if best != "" {
+					emit(best)
+					stat(fmt.Sprintf("grepio.pairwise.v%d", v))
+					if mixed {
+						stat("grepio.pairwise.mixed")
+					} else {
+						stat("grepio.pairwise.uniform")
+					}
+				}
+			}
+			nth++
 		}
 	}
 	// obiannotate end to end on arbitrary layouts
@@ -798,6 +1028,26 @@ func c16GenPipe(rng *rand.Rand, tier string, emit func(string), join func(string
 					recs[j].r.attrs[k] = c16Val{kind: 's', s: []string{"A", "B", "s1", "x_9"}[rng.Intn(4)]}
 				}
 			}
+		}
+		if rng.Intn(8) == 0 { // class / directory values holding ':' that collide when concatenated
+			a, b, c := []string{"S1", "x", "A"}[rng.Intn(3)], []string{"lib", "y", "B"}[rng.Intn(3)], []string{"A", "z", "q_1"}[rng.Intn(3)]
+			for j := range recs {
+				switch rng.Intn(3) {
+				case 0:
+					recs[j].r.attrs["sample"], recs[j].r.attrs["k"] = c16Val{kind: 's', s: a}, c16Val{kind: 's', s: b + ":" + c}
+				case 1:
+					recs[j].r.attrs["sample"], recs[j].r.attrs["k"] = c16Val{kind: 's', s: a + ":" + b}, c16Val{kind: 's', s: c}
+				}
+			}
+			stat("distio.colon-values")
+		}
+		if rng.Intn(8) == 0 { // class values ending with .gz next to the same value without it
+			for j := range recs {
+				if v, ok := recs[j].r.attrs["sample"]; ok && rng.Intn(2) == 0 {
+					recs[j].r.attrs["sample"] = c16Val{kind: 's', s: v.shown() + ".gz"}
+				}
+			}
+			stat("distio.gz-values")
 		}
 		pre := []string{"out_", "b", "x.y_", "R"}[rng.Intn(4)]
 		suf := []string{".fasta", "", ".fa.gz", ".gz", "_z.fa"}[rng.Intn(5)]
@@ -826,11 +1076,50 @@ func c16GenPipe(rng *rand.Rand, tier string, emit func(string), join func(string
 			toks = append(toks, fmt.Sprintf("H=%d", 1+rng.Intn(6)))
 			stat("distio.hash")
 		}
-		if rng.Intn(4) == 0 {
+		isZ := rng.Intn(4) == 0
+		if isZ {
 			toks = append(toks, "z")
 		}
 		if rng.Intn(3) == 0 {
 			toks = append(toks, "long")
+		}
+		if rng.Intn(3) == 0 {
+			// files present before the run: some of the files the run writes, and one it does not
+			if d0, ok := c16ParseDist(append(append([]string{}, toks...), "bs=1")); ok {
+				var olds []string
+				seen := map[string]bool{}
+				n := 0
+				for i, p := range recs {
+					fn, ok := d0.refFile(i, p.r)
+					if !ok || seen[fn] || rng.Intn(2) == 0 {
+						continue
+					}
+					seen[fn] = true
+					ids := "-"
+					if k := rng.Intn(3); k > 0 {
+						var l []string
+						for j := 0; j < k; j++ {
+							n++
+							l = append(l, hs(fmt.Sprintf("old%d", n)))
+						}
+						ids = strings.Join(l, ".")
+					}
+					olds = append(olds, hs(fn)+":"+ids)
+				}
+				if rng.Intn(2) == 0 {
+					olds = append(olds, hs("untouched.fasta")+":"+hs("old99"))
+				}
+				if len(olds) > 0 {
+					toks = append(toks, "old="+strings.Join(olds, ","))
+					stat("distio.old")
+				}
+			}
+			if rng.Intn(3) != 0 {
+				toks = append(toks, "A")
+				stat("distio.append")
+			}
+		} else if rng.Intn(8) == 0 {
+			toks = append(toks, "A")
 		}
 		toks = append(toks, c16RandLayout(rng, len(recs))...)
 		emit("distio " + strings.Join(toks, " ") + " | " + c16ShowRecs(recs))
